@@ -1236,19 +1236,24 @@ Proof. unfold open_send. destruct (w_credit w =? 0); [discriminate|]. intros H; 
 Lemma poll_ready_wsame id wr w r wr' w' : poll_ready id wr w = (r, wr', w') -> wsame w w'.
 Proof.
   unfold poll_ready. destruct (assoc id wr) as [[lo hi]|]; [|intros H; inversion H; subst; apply wsame_refl].
+  destruct (assoc id (w_pstop w)); [intros H; inversion H; subst; apply wsame_refl|].
   destruct (tx_budget (tx_of w id)); [|intros H; inversion H; subst; apply wsame_refl].
   destruct (hi <=? n); [intros H; inversion H; subst; repeat split|].
   destruct (n + tx_slack (tx_of w id) <? lo); intros H; inversion H; subst; repeat split.
 Qed.
 
 Lemma grease_finish_wsame c w wr r c' w' wr' : grease_finish (c, w, wr) = (r, (c', w', wr')) -> wsame w w'.
-Proof. unfold grease_finish. destruct (c_gstep c); intros H; inversion H; subst; repeat split. Qed.
+Proof.
+  unfold grease_finish. destruct (c_gstep c); try (intros H; inversion H; subst; repeat split; fail).
+  destruct (assoc (c_gid c) (w_finp w)) as [[|p]|]; intros H; inversion H; subst; repeat split.
+Qed.
 Lemma grease_ready_wsame c w wr r c' w' wr' : grease_ready (c, w, wr) = (r, (c', w', wr')) -> wsame w w'.
 Proof.
   unfold grease_ready. destruct (c_gstep c); try apply grease_finish_wsame.
   destruct (poll_ready (c_gid c) wr w) as [[x wr1] w1] eqn:Hp. apply poll_ready_wsame in Hp.
   destruct x; intros H.
   - apply grease_finish_wsame in H. eapply wsame_trans; eauto.
+  - inversion H; subst. exact Hp.
   - inversion H; subst. exact Hp.
   - inversion H; subst. exact Hp.
 Qed.
@@ -1651,8 +1656,9 @@ Proof.
   destruct (poll_ready (control_send_id (d_role d)) wr w) as [[y wr1] w1] eqn:Hp. apply poll_ready_wsame in Hp.
   pose proof (good_world c w w1 x Hp Hg) as Hg1.
   destruct y.
-  - eapply (dgood_finish_done _ _ _ _ _ (@PPending unit)). apply post_of_good. exact Hg1.
   - apply dgood_finish_run; [discriminate|exact Hg1].
+  - apply dgood_finish_run; [discriminate|exact Hg1].
+  - eapply (dgood_finish_done _ _ _ _ _ (@PPending unit)). apply post_of_good. exact Hg1.
   - eapply (dgood_finish_done _ _ _ _ _ (@PPending unit)). apply post_of_good. exact Hg1.
 Qed.
 
@@ -1664,7 +1670,9 @@ Proof.
     destruct res as [u| |e|n| |]; try (eapply dgood_finish_done; exact Hp).
     destruct Hp as (_ & _ & Hgo). specialize (Hgo eq_refl).
     destruct (c_recv_closing c1) eqn:Hrc.
-    + apply run_shutdown_bytes. eapply good_parts; [| | | |exact Hgo]; try reflexivity; try apply wsame_refl; apply Hgo.
+    + destruct (c_sent c1).
+      * apply dgood_finish_run; [discriminate|exact Hgo].
+      * apply run_shutdown_bytes. eapply good_parts; [| | | |exact Hgo]; try reflexivity; try apply wsame_refl; apply Hgo.
     + apply dgood_finish_run; [discriminate|exact Hgo].
   - destruct (control_loop (next_control RClient (d_wt d)) (fuel_of (c, w, wr)) (c, w, wr)) as [res [[c1 w1] wr1]] eqn:Hl.
     destruct (control_loop_bytes _ _ x _ _ _ _ _ _ _ _ Hl Hg) as [Hp Hnr].
@@ -1714,6 +1722,7 @@ Proof.
   - apply run_headers_bytes. exact Hg.
   - apply run_driver_bytes. exact Hg.
   - apply run_shutdown_bytes. exact Hg.
+  - apply run_driver_bytes. exact Hg.
   - exact H1.
 Qed.
 
@@ -1784,6 +1793,8 @@ Proof.
   apply Hg. destruct e; try congruence.
   - apply live_new_uni; auto.
   - apply live_arrive; auto.
+  - cbn [sent_step]. apply (live_world_ext _ c w); auto.
+  - cbn [sent_step]. apply (live_world_ext _ c w); auto.
   - cbn [sent_step]. apply (live_world_ext _ c w); auto.
   - cbn [sent_step]. apply (live_world_ext _ c w); auto.
   - cbn [sent_step]. apply (live_world_ext _ c w); auto.
